@@ -374,7 +374,9 @@ func (r *reader) _readEvent(canary byte) (m Message, err error) {
 			m = mm
 
 		default:
-			panic(fmt.Sprintf("must not happen: invalid canary % X", canary))
+			// a data byte without running status, or a system common / real time status byte:
+			// neither can start an event of a SMF track
+			return m, fmt.Errorf("invalid status byte % X in SMF track", canary)
 		}
 
 		// on a voice/channel category message with status either given or cached (running status)
